@@ -262,18 +262,20 @@ def run(mod, argv=None):
     # guards: a check that runs away (a mutated library may loop or allocate without bound) ends as an
     # infrastructure error (exit 2), never as a verdict
     import resource
-    import signal
+    import threading
     limit = int(os.environ.get("VERIF_TIMEOUT", "900" if tier == "quick" else "3300"))
     mem_limit_kb = int(os.environ.get("VERIF_MAXRSS_GB", "12")) * 2**20
 
-    def _tick(signum, frame):
-        # own resident set only (Lean children map the Mathlib oleans and are left alone)
-        if resource.getrusage(resource.RUSAGE_SELF).ru_maxrss > mem_limit_kb:
-            raise MemoryError(f"check {pid}: resident set above {mem_limit_kb // 2**20} GB")
-        if time.time() - t0 > limit:
-            raise subprocess.TimeoutExpired(cmd=f"check {pid}", timeout=limit)
-    signal.signal(signal.SIGALRM, _tick)
-    signal.setitimer(signal.ITIMER_REAL, 5, 5)
+    def _watchdog():
+        # a daemon thread, not SIGALRM: several property modules use SIGALRM for their own per-call watchdogs
+        while True:
+            time.sleep(5)
+            rss = resource.getrusage(resource.RUSAGE_SELF).ru_maxrss   # own resident set only (Lean children are left alone)
+            if rss > mem_limit_kb or time.time() - t0 > limit:
+                why = f"resident set above {mem_limit_kb // 2**20} GB" if rss > mem_limit_kb else f"wall clock above {limit} s"
+                print(f"TIMEOUT/RESOURCE check {pid}: {why}", flush=True)
+                os._exit(2)
+    threading.Thread(target=_watchdog, daemon=True).start()
     global CURRENT_ID
     CURRENT_ID = pid
     ctx = Ctx(pid, tier, seed)
